@@ -54,6 +54,7 @@ def check(tier, seed):
                 'payloads and every case clears the returned buffer before the second call; non-trivial = payload length >= 1')
     with C.WorkDir('C01') as wd:
         C.audit_sources()
+        C.tie_b_kernels(res, wd, ('ck', 'frame'))
         pr = C.check_props('C01', wd)
         res.assumption_lines = pr['assumptions']
         for t in pr['theorems']:
@@ -71,21 +72,28 @@ def check(tier, seed):
                             lens.append(k * m + d)
             lens += [rng.randrange(0, 65536) for _ in range(300)]
         cases = []
+        kept = []
         cids = [(6, 1), (0, 0), (255, 255), (0xB5, 0x62), (5, 1), (0x13, 0x40), (1, 3)]
         for k, n in enumerate(lens):
+            if sum(len(c.cmd) for c in cases) > 40_000_000:      # stream in batches: long payloads make long command lines
+                res.compare(cases)
+                kept += [c for c in cases if c.comp == 'to_bytes' and c.desc['len'] <= 64][:25]
+                cases = []
             c, i = cids[k % len(cids)] if k % 3 else (rng.randrange(256), rng.randrange(256))
             style = rng.choice(['rand', 'rand', 'ff', 'zero', 'sync'])
             p = gen_payload(rng, n, style)
-            impl = impl_tobytes(c, i, p, reuse=(k % 2 == 0))
+            impl = C.guarded(impl_tobytes, c, i, p, k % 2 == 0)
+            if impl.startswith('!'):
+                _FRAMES.pop((c, i), None)
             desc = {'cls': c, 'id': i, 'len': n, 'style': style, 'payload_hex': C.hexs(p) if n <= 300 else C.hexs(p[:300]) + '...'}
             cases.append(Case('to_bytes', f'tobytes {c} {i} {C.hexs(p)}', impl, desc, nontrivial=n >= 1,
                               kind=f'len<{256 if n < 256 else 1001 if n <= 1000 else 65536}/{style}'))
-            cases.append(Case('to_bytes-vs-wire-spec', f'wire {c} {i} {C.hexs(p)}', impl.split(' ')[0], desc,
+            cases.append(Case('to_bytes-vs-wire-spec', f'wire {c} {i} {C.hexs(p)}', impl.split(' ')[0] if not impl.startswith('!') else impl, desc,
                               nontrivial=False, kind='spec'))
         res.compare(cases)
         # real message classes: wire(CID, pack()) on freshly constructed frames
         res.notes['lengths_distinct'] = len(set(lens))
-        xs = [c for c in cases if c.comp == 'to_bytes' and c.desc['len'] <= 64][:25]
+        xs = (kept + [c for c in cases if c.comp == 'to_bytes' and c.desc['len'] <= 64])[:25]
         terms = []
         for c in xs:
             _, cc, ii, h = c.cmd.split()
